@@ -646,15 +646,20 @@ int disasm_arm64(
         }
         case OP_LD_ST_IMM:
         {
-          imm = ((opcode >> 10) & 0xfff) << 1;
-          char reg_name = (size & 1) == 0 ? 'x' : 'w';
+          // The offset is in units of the access size (bits 31-30, for a
+          // SIMD register with bit 23 on top).
+          int scale = opcode >> 30;
+          char reg_name = scale == 3 ? 'x' : 'w';
 
           if (v == 1)
           {
-            int scalar = size | (((opcode >> 23) & 1) << 2);
+            int scalar = scale | (((opcode >> 23) & 1) << 2);
             if (scalar > 4) { continue; }
             reg_name = scalar_size[scalar];
+            scale = scalar;
           }
+
+          imm = ((opcode >> 10) & 0xfff) << scale;
 
           if (imm == 0)
           {
